@@ -214,6 +214,16 @@ func runPgHistory(ops []pgOp, faults map[int]int) *pgResult {
 		}
 		return false
 	}
+	// the property names the steps whose failure must be reported: begin, statement, row fetch,
+	// commit. A failing Rollback (cleaning up after the result is already known) need not be.
+	mustReport := func(before int) bool {
+		for i := before; i < len(e.srv.Log); i++ {
+			if e.srv.Log[i].Fault != 0 && e.srv.Log[i].Op != "Rollback" {
+				return true
+			}
+		}
+		return false
+	}
 	lastFaultCall := 0
 	for k := range faults {
 		if k > lastFaultCall {
@@ -273,7 +283,7 @@ func runPgHistory(ops []pgOp, faults map[int]int) *pgResult {
 			return bad("call-after-tx-end", i, nil, "during %s: %s (log: %s)", desc, e.srv.Misuse[0], logTail(e.srv, 8))
 		}
 		// the operation during which a fault fired reports an error
-		if faulted && err == nil && op.Kind != "abort" {
+		if faulted && mustReport(before) && err == nil && op.Kind != "abort" {
 			return bad("fault-not-reported", i, nil, "%s: a driver call failed during the operation but it returned no error (log: %s)", desc, logTail(e.srv, 6))
 		}
 		rk := refKey(h.ctx.pfx, h.ctx.sid, op.Key, h.ctx.lang)
@@ -480,6 +490,13 @@ func runPgHistory(ops []pgOp, faults map[int]int) *pgResult {
 			return bad("acknowledged-write-lost", len(ops), attrs, "after the history (all handles closed) %s is not readable (%v) although %v was acknowledged (log: %s)", rk, gerr, e.acked[rk], logTail(e.srv, 14))
 		}
 		if !inList(e.acked[rk], string(got)) && !inList(e.doubt[rk], string(got)) {
+			if langed(c.pfx) && c.lang != "" {
+				dk := refKey(c.pfx, c.sid, key, "")
+				if inList(e.acked[dk], string(got)) || inList(e.doubt[dk], string(got)) {
+					// the read fell back to the default-language entry: the translated write is gone
+					return bad("acknowledged-write-lost", len(ops), attrs, "after the history %s reads the default-language entry %q although the translated write %v was acknowledged (log: %s)", rk, got, e.acked[rk], logTail(e.srv, 14))
+				}
+			}
 			return bad("phantom-value", len(ops), attrs, "after the history %s reads %q; acknowledged %v, in doubt %v", rk, got, e.acked[rk], e.doubt[rk])
 		}
 		if !e.anyStart && len(e.doubt[rk]) == 0 {
